@@ -28,8 +28,11 @@
       nodes (`C08_copy_vars_fresh`)
   CONDITIONAL, hypothesis named: `copy_vars` into a target that already stores nodes
   (`C08_copy_vars`: its levels can leave a gap, F7).
-  Dynamic reordering ENABLED: `C08_ops_dyn` (from the C09 transparency theorems), plus everything
-  of `C08_ops_unconditional` / `C08_ops_guarded` that is stated for every mode.
+  Dynamic reordering ENABLED: `C08_ops_dyn_total` (ARBITRARY arguments, returns or raises; from
+  main's `*_total_dyn`), `C08_ops_dyn` / `C08_image_dyn` (well-formed calls, from the C09
+  transparency theorems), `C08_find_or_add` (both modes), plus everything of
+  `C08_ops_unconditional` / `C08_ops_guarded` that is stated for every mode.
+  What the methods RETURN: `DDProps/C08Values.lean`.
 -/
 import DDProofs.AutoProofs
 import DDProofs.AutoTemps
@@ -38,6 +41,7 @@ import DDProofs.AutoImage
 import DDProofs.AutoDyn
 import DDProofs.AutoCopyVars
 import DDProofs.AutoShutdown
+import DDProofs.AutoDynTotal
 open Std
 
 namespace DD
@@ -185,7 +189,7 @@ and the meaning of every live `Function`.
 declared: C10 + the order invariant); `let` with `Function` values needs the values to be
 `Function`s of this manager; `declare` never reorders.
 `image` / `preimage` with reordering enabled are in `C08_image_dyn` below (repair of finding
-F4c); not covered: the raw `find_or_add`. -/
+F4c); the raw `find_or_add` is `C08_find_or_add`; arbitrary arguments: `C08_ops_dyn_total`. -/
 theorem C08_ops_dyn (a : AMgr) (h : Nat) :
     (∀ hg hu hv, AKeepsAt false a h (aIte hg hu hv h)) ∧
     (∀ op c, docConn op = some c → c.arity = 2 → c ≠ .forall_ → c ≠ .exists_ →
@@ -229,6 +233,67 @@ theorem C08_ops_dyn (a : AMgr) (h : Nat) :
    fun op hs => fApply_unary_keeps op hs h,
    fun hs ho => fLe_keepsDyn hs ho, fun hs ho => fLt_keepsDyn hs ho,
    fun src _ hu hsrc hpre => aCopyTo_keepsAtDyn a src hsrc hu h hpre⟩
+
+/-- dynamic reordering possibly ENABLED, ARBITRARY arguments (the counterpart of `C08_ops_off`; lifted
+from main's `ite_total_dyn`, `apply_total_dyn`, `var_total_dyn`, `quantify_total_dyn`,
+`letOp_total_dyn`, `cube_total_dyn`, `copyBdd_total_dyn`, `addExpr_total_dyn`): every method of the
+list, whatever the handle ids (`Function`s of this manager, of another manager, ids that are not
+in use), names (declared or not) and operator strings, whether it returns or raises — with a
+reordering fired at any node creation or not — keeps `AInv false` (count equation included),
+touches no handle other than the new one, and every live `Function` keeps its node and its
+meaning by name.  `copy` / `copy_bdd` INTO this manager from any source state.
+Not in this list: `image` / `preimage` with arbitrary arguments (main has no `image_total_dyn`;
+well-formed calls are `C08_image_dyn`), `reorder` / `add_var` / `find_or_add` (preconditions:
+`C08_ops_guarded`, `C08_find_or_add`). -/
+theorem C08_ops_dyn_total (h : Nat) :
+    (∀ name, AKeeps false h (aVar name h)) ∧
+    (∀ b, AKeeps false h (aConst b h)) ∧
+    (∀ op hu hv hw, AKeeps false h (aApply op hu hv hw h)) ∧
+    (∀ hg hu hv, AKeeps false h (aIte hg hu hv h)) ∧
+    (∀ d hu, AKeeps false h (aLet d hu h)) ∧
+    (∀ hu q fa, AKeeps false h (aQuantify hu q fa h)) ∧
+    (∀ d, AKeeps false h (aCube d h)) ∧
+    (∀ i, AKeeps false h (aAddInt i h)) ∧
+    (∀ hu, AKeeps false h (aCopyBddSame hu h)) ∧
+    (∀ e, AKeeps false h (aAddExpr e h)) ∧
+    (∀ op hs ho, AKeeps false h (fApply op hs ho h)) ∧
+    (∀ high hs, AKeeps false h (fChild high hs h)) ∧
+    (∀ hs, AKeeps false h (fCopy hs h)) ∧
+    (∀ hu h2, h ≠ h2 → AKeepsL false [h, h2] (aSucc hu h h2)) ∧
+    (∀ hs ho, AKeeps0 false (fEq hs ho)) ∧
+    (∀ hs ho, AKeeps0 false (fNe hs ho)) ∧
+    (∀ hs ho, AKeeps0 false (fLe hs ho)) ∧
+    (∀ hs ho, AKeeps0 false (fLt hs ho)) ∧
+    AKeeps false h aCollectGarbage ∧
+    (∀ r, AKeeps false h (aConfigure r)) ∧
+    (∀ ns, AKeeps false h (aDeclare ns)) ∧
+    (∀ (src : AMgr) hu, AKeeps false h (aCopyTo src hu h)) ∧
+    (∀ (src : AMgr) hu, AKeeps false h (aCopyBddTo src hu h)) :=
+  ⟨fun n => aVar_keepsDynTotal n h, fun b => aConst_keeps b h,
+   fun op hu hv hw => aApply_keepsDynTotal op hu hv hw h,
+   fun hg hu hv => aIte_keepsDynTotal hg hu hv h,
+   fun d hu => aLet_keepsDynTotal d hu h,
+   fun hu q fa => aQuantify_keepsDynTotal hu q fa h, fun d => aCube_keepsDynTotal d h,
+   fun i => aAddInt_keeps i h, fun hu => aCopyBddSame_keeps hu h,
+   fun e => aAddExpr_keepsDynTotal e h,
+   fun op hs ho => fApply_keepsDynTotal op hs ho h,
+   fun high hs => fChild_keeps high hs h, fun hs => fCopy_keeps hs h,
+   fun hu h2 hne => aSucc_keepsL hu h h2 hne,
+   fun hs ho => fEq_keeps0 hs ho, fun hs ho => fNe_keeps0 hs ho,
+   fun hs ho => fLe_keepsDynTotal hs ho, fun hs ho => fLt_keepsDynTotal hs ho,
+   aCollectGarbage_keepsAll h, fun r => aConfigure_keeps (off := false) r (fun hf => Bool.noConfusion hf) h,
+   fun ns => aDeclare_keepsAll ns h,
+   fun src hu => aCopyTo_keepsDynTotal src hu h, fun src hu => aCopyBddTo_keepsDynTotal src hu h⟩
+
+/-- the raw `find_or_add(var, low, high)` of `autoref.BDD` in BOTH modes (it runs outside the
+reordering decorator, so it never reorders: `C09_findOrAdd_outside_context`): under its
+documented level guard the invariant, the other handles and every live meaning are kept; the
+name may be undeclared and the operands need not be live (the method raises) -/
+theorem C08_find_or_add (a : AMgr) (var : String) (hlow hhigh h : Nat)
+    (hg : ∀ level lo hi, (levelOfVar var a.m).1 = .ok level → (nodeAny hlow a).1 = .ok lo →
+      (nodeAny hhigh a).1 = .ok hi → FoaGuard a.m level lo hi) :
+    AKeepsAt off a h (aFindOrAdd var hlow hhigh h) :=
+  aFindOrAdd_keepsAtAll a var hlow hhigh h hg
 
 /-- reordering possibly enabled, `image` / `preimage` (since the repair of F4c they run inside the
 decorator with their arguments turned into names; from `C09_image_transparent` /
@@ -393,5 +458,82 @@ example : CoreKeeps true (ite 2 3 4) := ite_keepsOff 2 3 4
 /-- the hypotheses of the shutdown theorems are met by a fresh manager -/
 example : AInv true ({} : AMgr) ∧ ({} : AMgr).handles.isEmpty = true :=
   ⟨AInv.empty, TreeMap.isEmpty_emptyc⟩
+
+/-! ### non-vacuity on a state with variables, nodes, several handles, a drop and a collection
+
+`bdd = autoref.BDD(); bdd.declare('a', 'b', 'c'); fa = bdd.var('a'); fb = bdd.var('b');
+fx = bdd.apply('xor', fa, fb); del fa; bdd.collect_garbage()` — handles `0 ↦ 2` (`a`),
+`1 ↦ 3` (`b`), `2 ↦ -4` (`a xor b`, a complemented edge); the collection removes node 2. -/
+
+def nvA1 : AMgr := (aDeclare ["a", "b", "c"] {}).2
+def nvA2 : AMgr := (aVar "a" 0 nvA1).2
+def nvA3 : AMgr := (aVar "b" 1 nvA2).2
+def nvA4 : AMgr := (aApply "xor" 0 (some 1) none 2 nvA3).2
+def nvA5 : AMgr := (drop 0 nvA4).2
+def nvA6 : AMgr := (aCollectGarbage nvA5).2
+
+theorem nvA1_inv : AInv true nvA1 :=
+  ((C08_ops_off 99).2.2.2.2.2.2.2.2.2.2.2.2.2.2.2.2.2.2.2.2 ["a", "b", "c"] {} AInv.empty
+    (by decide) _ _ rfl).1
+theorem nvA2_inv : AInv true nvA2 := ((C08_ops_off 0).1 "a" nvA1 nvA1_inv (by decide) _ _ rfl).1
+theorem nvA3_inv : AInv true nvA3 :=
+  ((C08_ops_off 1).1 "b" nvA2 nvA2_inv (by decide +kernel) _ _ rfl).1
+theorem nvA4_inv : AInv true nvA4 :=
+  ((C08_ops_off 2).2.2.1 "xor" 0 (some 1) none nvA3 nvA3_inv (by decide +kernel) _ _ rfl).1
+theorem nvA4_h0 : nvA4.handles[(0 : Nat)]? = some 2 := by decide +kernel
+theorem nvA4_h1 : nvA4.handles[(1 : Nat)]? = some 3 := by decide +kernel
+theorem nvA4_h2 : nvA4.handles[(2 : Nat)]? = some (-4) := by decide +kernel
+theorem nvA4_f3 : nvA4.handles.contains 3 = false := by decide +kernel
+
+/-- what the state looks like: three stored nodes, three handles, counts 2 = one handle + one
+in-edge … -/
+example : nvA4.m.tbl.succ.toList.map (fun (k, n) => (k, n.lvl, n.lo, n.hi)) =
+      [(2, 0, -1, 1), (3, 1, -1, 1), (4, 0, -3, 3)] ∧
+    nvA4.m.ref.toList = [(1, 5), (2, 1), (3, 3), (4, 1)] := by decide +kernel
+
+/-- the count equation (`C08_counts`) on a non-terminal node with two in-edges and a handle -/
+example : nvA4.m.ref[(3 : Nat)]? = some (indeg nvA4.m.tbl 3 + hcount nvA4.handles 3 + 0) := by
+  have := C08_counts nvA4 nvA4_inv 3 (Or.inr (by decide +kernel))
+  simpa using this
+
+/-- `del fa` (`C08_drop`) -/
+theorem nvA5_inv : AInv true nvA5 := by
+  obtain ⟨a', he, i', _⟩ := C08_drop nvA4 0 2 nvA4_inv nvA4_h0
+  have : nvA5 = a' := by show (drop 0 nvA4).2 = a'; rw [he]
+  rw [this]; exact i'
+theorem nvA5_h2 : nvA5.handles[(2 : Nat)]? = some (-4) := by decide +kernel
+
+/-- the history "drop `fa`, collect" protects `fx` (handle 2): `C08_live_den` applies, the
+collection really removes a node (node 2 is gone, node 3 keeps count 3) -/
+theorem nvA_history : AReach true (· = 2) nvA4 nvA6 :=
+  .step (.step (.refl _) (.drop 0 (by decide) nvA4 nvA5 2 nvA4_h0
+      (by obtain ⟨a', he, _⟩ := C08_drop nvA4 0 2 nvA4_inv nvA4_h0
+          have : nvA5 = a' := by show (drop 0 nvA4).2 = a'; rw [he]
+          rw [this]; exact he)))
+    (.op [99] aCollectGarbage nvA5 ((aCollectGarbage_keepsAll 99).toL.at nvA5)
+      (fun h hh => by
+        rcases List.mem_cons.mp hh with rfl | hh
+        · decide +kernel
+        · cases hh) (aCollectGarbage nvA5).1 nvA6 rfl)
+
+example : AInv true nvA6 ∧ nvA6.handles[(2 : Nat)]? = some (-4) ∧
+    (∀ σ, denN nvA6.m.tbl (-4) σ = denN nvA4.m.tbl (-4) σ) ∧
+    nvA6.m.tbl.node? 2 = none ∧ nvA6.m.ref[(3 : Nat)]? = some 3 := by
+  obtain ⟨i6, h⟩ := C08_live_den (· = 2) nvA4_inv nvA_history
+  obtain ⟨h2, _, hd⟩ := h 2 rfl (-4) nvA4_h2
+  exact ⟨i6, h2, hd, by decide +kernel, by decide +kernel⟩
+
+/-- after the remaining `Function`s are dropped the shutdown theorem applies to this state -/
+example : ∃ m', shutdown ((drop 2 (drop 1 nvA6).2).2).m = (.ok (), m') ∧
+    (∀ u : Nat, m'.tbl.node? u = none) := by
+  obtain ⟨i6, h⟩ := C08_live_den (· = 2) nvA4_inv nvA_history
+  obtain ⟨a7, he7, i7, _, hh7⟩ := C08_drop nvA6 1 3 i6 (by decide +kernel)
+  obtain ⟨a8, he8, i8, _, hh8⟩ := C08_drop a7 2 (-4) i7
+    (by rw [hh7, getElem?_erase_ne _ _ _ (by decide)]; exact (h 2 rfl (-4) nvA4_h2).1)
+  have e : (drop 2 (drop 1 nvA6).2).2 = a8 := by rw [he7]; show (drop 2 a7).2 = a8; rw [he8]
+  rw [e]
+  obtain ⟨m', hm, hn, _⟩ := C08_shutdown true a8 i8 (by
+    rw [hh8, hh7]; decide +kernel)
+  exact ⟨m', hm, hn⟩
 
 end DD
